@@ -185,6 +185,7 @@ func main() {
 		knownFile = flag.String("known", "/verif/known_findings.json", "known findings file")
 		noReplay  = flag.Bool("noreplay", false, "do not replay counterexamples natively")
 		params    = flag.String("params", "", "harness parameters k=v,k=v (exposed through vParam)")
+		replayF   = flag.String("replayfile", "", "replay this counterexample file natively and print the harness output")
 		unitsFile = flag.String("units", "", "JSON file with a list of {funcs, params} units to run in this process")
 	)
 	flag.Parse()
@@ -198,6 +199,27 @@ func main() {
 	_ = concrete
 	_ = nconc
 	start := time.Now()
+	if *replayF != "" {
+		var cf cexFile
+		data, err := os.ReadFile(*replayF)
+		if err == nil {
+			err = json.Unmarshal(data, &cf)
+		}
+		if err != nil {
+			fmt.Fprintln(os.Stderr, "replay:", err)
+			os.Exit(2)
+		}
+		_, files, _ := harnessOverlay(*repo, *hroot)
+		r := &Run{Repo: *repo, HarnessRoot: *hroot, HarnessFiles: files, Tags: *tags}
+		out, _ := r.nativeRun(cf.Package, cf.Harness, *replayF)
+		fmt.Println(out)
+		v := r.replayVerdict(out, cf)
+		fmt.Println(v)
+		if v == "REPRODUCED" {
+			os.Exit(1)
+		}
+		os.Exit(0)
+	}
 	ov, files, err := harnessOverlay(*repo, *hroot)
 	if err != nil {
 		fmt.Fprintln(os.Stderr, "overlay:", err)
